@@ -169,6 +169,16 @@ def annotate(case, v):
         notes.append("probe: " + st["src"][7:].split(" ")[0])
     elif st["src"].startswith("(require"):
         notes.append("unit")
+    # does the failing step involve a name that a module bound as an engine-wide global (tag leak=...)?
+    leak = [x for x in dict(kv.split("=", 1) for kv in case["tag"].split(";") if "=" in kv).get("leak", "").split(",") if x]
+    touched = []
+    for name in leak:
+        in_step = f"({name} " in st["src"]
+        in_module_code = v["why"].startswith("emit:") and any(f"({name} " in t for t in case["files"].values())
+        if in_step or in_module_code:
+            touched.append(name)
+    if touched:
+        notes.append("touches-leaked: " + ",".join(touched))
     if got.get("msg"):
         notes.append("msg: " + got["msg"][:90])
     v = dict(v)
